@@ -533,6 +533,19 @@ pub fn corner_files() -> Vec<(Cfg, Vec<Entry>)> {
     // configuration values at the top of their domains
     v.push((c(0, usize::MAX, usize::MAX, 1), (0..300u32).map(|i| ((i * 2).to_be_bytes().to_vec(), value_for(i + 1, 50))).collect()));
     v.push((c(5, 1 << 40, 1, 0), (0..40u32).map(|i| (long_key(i + 1), value_for(i + 1, 100))).collect()));
+    // the smallest files through every codec and several compression levels: the shortest
+    // compressed blocks a codec can produce (a sanity bound on stored block sizes must allow them)
+    for (codec, level) in [(1u8, 0u32), (2, 0), (2, 1), (2, 6), (3, 0), (4, 0), (4, 1), (4, 3)] {
+        let mut cf = c(codec, 1024, 8, 0);
+        cf.level = level;
+        v.push((cf, vec![]));
+    }
+    for codec in 0..6u8 {
+        v.push((c(codec, 1024, 8, 0), vec![e(b"a", b""), e(b"b", b""), e(b"c", b"")]));
+    }
+    for codec in 1..5u8 {
+        v.push((c(codec, 1024, 8, if codec % 2 == 0 { 0 } else { 2 }), vec![e(b"\x00", b"")]));
+    }
     v
 }
 
